@@ -77,7 +77,7 @@ func verifC14Accept(followUp bool) {
 	}
 	// the misbehaving peer
 	p1 := &vfs.Peer{AbortErr: vfs.RemoteAbort{}}
-	kind := vf.Int("peer-kind", 0, 2)
+	kind := vf.Int("peer-kind", 0, 4)
 	switch kind {
 	case 0: // arbitrary ALPN entries (TLS cannot carry an empty name)
 		a, b := vf.String("alpn", 40), vf.String("alpn", 40)
@@ -88,23 +88,41 @@ func verifC14Accept(followUp bool) {
 		}
 	case 1: // not TLS at all
 		p1.NotTLS = true
-	default: // an unregistered node's well-formed fetch, aborted with a fatal alert once the server has answered
+	case 3: // a well-formed ClientHello that carries no ALPN extension at all
+		p1.Protos = nil
+	default: // an unregistered node's well-formed fetch, aborted with a fatal alert once the server has answered (2),
+		// or completed and followed by a connection reset, so that the server's own Close fails (4)
 		info := &types.FetchNodeCredentialsInfo{CertificatePublicKeyPkix: vf.Pkix(3), CertificatePublicKeyType: types.KEYTYPE_ED25519,
 			Nonce: []byte("an-unregistered-nodes-nonce-32-b"), EncryptionPublicKeyBytes: vf.X25519Pub(0), EncryptionPublicKeyType: types.KEYTYPE_X25519,
 			NotBefore: timestamppb.New(t0.Add(-time.Hour)), NotAfter: timestamppb.New(t0.Add(time.Hour))}
 		bundle, _ := proto.Marshal(info)
 		reqBytes, _ := proto.Marshal(&types.FetchNodeCredentialsRequest{Bundle: bundle, BundleSignature: vf.SigBy(3, bundle)})
 		p1.Protos, _ = nodetls.BreakIntoNextProtos(nodeenrollment.FetchNodeCredsNextProtoV1Prefix, base64.RawStdEncoding.EncodeToString(reqBytes))
-		p1.Abort = true
+		if kind == 2 {
+			p1.Abort = true
+		} else {
+			// a node without credentials presents a throw-away self-signed certificate
+			tmpl := vfs.RootTemplate(6, t0.Add(-time.Hour), t0.Add(time.Hour))
+			p1.Chain, p1.HoldsLeafKey = [][]byte{vfs.MkCert(tmpl, tmpl, 6, 6)}, true
+			p1.Reset, p1.ResetErr = true, vfs.ConnReset{}
+		}
 	}
-	p1.Conn = vf.AdversaryConnMode(p1.Protos, nil, 0, false, p1.NotTLS, p1.Abort)
+	if p1.Reset {
+		p1.Conn = vf.AdversaryConnReset(p1.Protos, p1.Chain, 6)
+	} else {
+		p1.Conn = vf.AdversaryConnMode(p1.Protos, nil, 0, false, p1.NotTLS, p1.Abort)
+	}
 	base := &vfs.Script{Conns: []net.Conn{p1, nil, nil}, Errs: []error{nil, nil, errBase}}
 	if followUp {
 		base = &vfs.Script{Conns: []net.Conn{p1, nil, vfHonestAuthPeer(ctx, st, cur, curTmpl), nil}, Errs: []error{nil, nil, nil, errBase}}
 	}
 	var baseCfg *tls.Config
 	if vf.Bool("application-has-a-base-tls-configuration") {
-		baseCfg = &tls.Config{NextProtos: []string{"app"}}
+		appKey, kerr := x509.ParsePKCS8PrivateKey(cur.PrivateKeyPkcs8)
+		if kerr != nil {
+			panic(kerr)
+		}
+		baseCfg = &tls.Config{NextProtos: []string{"app"}, Certificates: []tls.Certificate{{Certificate: [][]byte{cur.CertificateDer}, PrivateKey: appKey}}}
 	}
 	l, err := NewInterceptingListener(&InterceptingListenerConfiguration{Context: ctx, Storage: st, BaseListener: base, BaseTlsConfiguration: baseCfg})
 	vf.Assert("listener-built", err == nil)
